@@ -155,6 +155,76 @@ Example C20_checker_rejects :   (* "returned normally with the corrupt body on d
   spec_b (fun b => b) ex_world (download (fun b => b) ex_world) = true.
 Proof. vm_compute. auto. Qed.
 
+(* -- stage 3: when the call DOES return; what happens when no checksum is available --------------- *)
+
+(* The statement says when the call must NOT return.  The model also says exactly when it does: the
+   outcome is "skipped" iff no data GET was made (C20_skip says when that is), and "downloaded" iff it
+   was not skipped and either the first 200 body was not refuted by the checksum answer that verified
+   it (unavailable, or the body's own checksum), or it was refuted and the second data GET brought a
+   body that was not.  With C20_raises this determines the outcome in every world. *)
+Theorem C20_returns_iff : forall (md5 : Z -> Z) (w : world),
+  (returned (r_out (download md5 w)) = true <->
+     r_out (download md5 w) = RetSkip \/ r_out (download md5 w) = RetDone) /\
+  (r_out (download md5 w) = RetSkip <-> n_data (download md5 w) = O) /\
+  (r_out (download md5 w) = RetDone <->
+     n_data (download md5 w) <> O /\
+     ((exists b1, wdata w 0 = Body b1 /\ Accepts md5 w b1 (k0 w)) \/
+      (exists b1 b2, wdata w 0 = Body b1 /\ Mismatch md5 w b1 (k0 w) /\
+                     wdata w 1 = Body b2 /\ Accepts md5 w b2 (S (k0 w))))).
+Proof.
+  intros md5 w. exact (conj (returned_iff md5 w) (conj (skip_out_iff md5 w) (done_iff md5 w))).
+Qed.
+Print Assumptions C20_returns_iff.
+
+(* "not refuted" is the complement of "refuted" (so the two cases above and those of C20_raises are
+   exhaustive and exclusive) *)
+Theorem C20_accepts_iff : forall (md5 : Z -> Z) (w : world) (b : Z) (k : nat),
+  Accepts md5 w b k <-> ~ Mismatch md5 w b k.
+Proof. exact accepts_iff_not_mismatch. Qed.
+Print Assumptions C20_accepts_iff.
+
+(* In the statement's words (checksum URL always answers c, existing file -- if any -- without MD5 c):
+   a good first transfer returns after one data GET; a corrupted first transfer followed by a good one
+   returns after two ("exactly one retry" is enough); the file is the good body, every body written was
+   verified.  The safety clauses alone would also be met by a download_file that always raises. *)
+Theorem C20_good_transfer_returns : forall (md5 : Z -> Z) (w : world) (c : Z),
+  ConstSums w -> w_rest w = Sum c -> (forall b, w_prior w = Some b -> md5 b <> c) ->
+  (forall g, wdata w 0 = Body g -> md5 g = c ->
+     download md5 w = {| r_out := RetDone; r_file := Some g; r_trace := trace_of w 1 |}) /\
+  (forall b1 g, wdata w 0 = Body b1 -> md5 b1 <> c -> wdata w 1 = Body g -> md5 g = c ->
+     download md5 w = {| r_out := RetDone; r_file := Some g; r_trace := trace_of w 2 |}).
+Proof. exact good_transfer_returns. Qed.
+Print Assumptions C20_good_transfer_returns.
+
+(* The checksum is never available: exactly ONE data GET whatever was on disk -- an existing file whose
+   validity cannot be established is downloaded again, not kept --; a 200 body is accepted as it is,
+   an error status raises and leaves the file as it was. *)
+Theorem C20_no_checksum : forall (md5 : Z -> Z) (w : world),
+  ConstSums w -> w_rest w = CNone ->
+  n_data (download md5 w) = 1%nat /\
+  (forall b, wdata w 0 = Body b ->
+     download md5 w = {| r_out := RetDone; r_file := Some b; r_trace := trace_of w 1 |}) /\
+  (wdata w 0 = DErr -> r_out (download md5 w) = RaiseHttp /\ r_file (download md5 w) = w_prior w).
+Proof. exact no_checksum. Qed.
+Print Assumptions C20_no_checksum.
+
+Definition nosum_world : world :=   (* a file exists, the checksum URL answers 404, the data URL answers 404 *)
+  {| w_data := [DErr]; w_sums := []; w_rest := CNone; w_prior := Some 0 |}.
+Example C20_stage3_ex :
+  (* corrupted first transfer, good retry: returns with the good body after two data GETs *)
+  download (fun b => b) {| w_data := [Body 1; Body 0]; w_sums := []; w_rest := Sum 0; w_prior := None |} =
+    {| r_out := RetDone; r_file := Some 0; r_trace := [EvData; EvSum; EvData; EvSum] |} /\
+  Accepts (fun b => b) ex_world 0 2 /\
+  (* no checksum: the existing file is downloaded again, the 404 raises and the file stays *)
+  download (fun b => b) nosum_world = {| r_out := RaiseHttp; r_file := Some 0; r_trace := [EvSum; EvData] |} /\
+  (* ... and what the STATEMENT says about that world: an implementation that keeps the existing file and
+     returns without any data GET differs from the model but meets every clause (Sound: no checksum is
+     available; Skip, OneRetry: no data GET; Raises: no data GET was made, so none was answered with an error).
+     This is why such a change is reported as a model mismatch without a failing clause. *)
+  spec_b (fun b => b) nosum_world {| r_out := RetSkip; r_file := Some 0; r_trace := [EvSum] |} = true /\
+  spec_b (fun b => b) nosum_world (download (fun b => b) nosum_world) = true.
+Proof. vm_compute. repeat split; auto. Qed.
+
 (* -- bytes (layer B) ----------------------------------------------------------------------------- *)
 
 (* _save_stream: for every chunking of the response body (empty chunks included) the file holds
